@@ -258,8 +258,7 @@ def _impl_fs_history(inp):
 OPS = {
     # histories over one file system: the same path saved again with a smaller / larger / other / revised collection,
     # a loaded object edited and saved back, foreign content at the target, interleaved paths, poisoned results
-    "fs_history": Op("fs_history", _impl_fs_history, holds=c01_fs.holds, compare=c01_fs.compare, determined=False,
-                     to_model=c01_fs.to_model,
+    "fs_history": Op("fs_history", _impl_fs_history, holds=c01_fs.holds, compare=c01_fs.compare, to_model=c01_fs.to_model,
                      nontrivial=lambda i, o: isinstance(o, dict) and any("val" in x for x in o.get("steps", []))),
     # the same object listed twice in the collection's own member list (outside WF: only the correspondence is checked)
     "roundtrip_dup": Op("roundtrip_dup", _impl_roundtrip_dup, compare=_cmp_roundtrip, determined=False,
@@ -649,7 +648,7 @@ def _stage_products(ctx, st):
     """pairwise products (HISTORIES.md section 3): every spelling of the calls x every collection type x
     {no directory, absolute, relative, empty collection}; every construction path x every collection type"""
     small = _small_cases(ctx, "calls")
-    cases = [dict(c, io=v) for c in small for v in IO_VARIANTS]
+    cases = [dict(c, io=v, n=1 + (i + j) % 2) for i, c in enumerate(small) for j, v in enumerate(IO_VARIANTS)]
     for c in cases:
         c.pop("_tally", None)
     ctx.exhaustive["call_spellings"] = (f"{len(IO_VARIANTS)} spellings of save/load (format given / inferred / positional, type requested, "
@@ -714,8 +713,10 @@ def _stage_boundaries(ctx, st):
     near = _tally_cases(ctx, _buildable(ctx, _wf_filter(ctx, near)), "boundary")
     ctx.run_cases(OPS["roundtrip"], near)
     ctx.run_cases(OPS["save_doc"], _doc_cases(near[::2]))
-    sizes = _tally_cases(ctx, _wf_filter(ctx, c01_cases.size_cases(ctx.rng, (17, 257, 1025) if not ctx.thorough() else (17, 33, 257, 1025, 2049))),
-                         "size")
+    sizes = c01_cases.size_cases(ctx.rng, (17, 257, 1025) if not ctx.thorough() else (17, 33, 257, 1025, 2049))
+    if not ctx.thorough():      # quick: the largest size for recordings, tags / features and annotations only
+        sizes = [c for c in sizes if not (c["_tally"].startswith("1025") and "predictions" in c["_tally"])]
+    sizes = _tally_cases(ctx, _wf_filter(ctx, sizes), "size")
     ctx.exhaustive["sizes"] = "17 / 257 / 1025 recordings, tags, features, notes, sound event annotations, predictions; parent chains of 17 / 257"
     ctx.run_cases(OPS["roundtrip"], sizes)
     ctx.run_cases(OPS["roundtrip"], [dict(c, fresh=True) for c in sizes[::3]])
